@@ -15,11 +15,11 @@ TRUSTED = [
 ]
 
 QUIRKS = {
-    "1": "plain scalar starting with '...' in column 0 is read as a document end marker (goccy scanDocumentEnd)",
-    "2": "plain key ending in '<<' is read as a merge key (goccy isMergeKey)",
-    "3": "literal block whose first content line starts with a tab is misread (goccy scanMultiLine)",
-    "4": "string value starting with two double quotes is turned into an unreadable CUE literal by decode.go quotedString (literal hash form)",
-    "5": "literal block made of newlines only, followed by another node: 'could not find multi-line content' (goccy parser)",
+    "1": "C11-reader-dots: plain scalar starting with '...' in column 0 is read as a document end marker (goccy scanDocumentEnd)",
+    "2": "C11-reader-merge-key: plain key ending in '<<' is read as a merge key (goccy isMergeKey)",
+    "3": "C11-reader-literal-tab: literal block whose first content line starts with a tab is misread (goccy scanMultiLine)",
+    "4": "C11-reader-cuelit: string value starting with two double quotes is turned into an unreadable CUE literal by decode.go quotedString (literal hash form, = C09-autohash-leading-quotes)",
+    "5": "C11-reader-blank-literal: literal block made of newlines only, followed by another node: 'could not find multi-line content' (goccy parser)",
 }
 
 
@@ -40,13 +40,15 @@ def spec_gap(kind, s):
     """Name of the encoder-side class (theorem C11_style_choice_refuted_*) for a probe the model
     reads back wrongly without any reader deviation."""
     if kind == "L":
-        return "literal block chosen for a string the emitter's header/indentation cannot express (lone newline, or first content line starting with a blank)"
+        if s == b"\n":
+            return "C11-literal-newline: literal block with header '|' (clip) chosen for a lone newline; reads back as the empty string"
+        return "C11-literal-leading-blank: literal block without indentation indicator chosen for a string whose first content line starts with a blank"
     if kind == "SG":
-        return "goccy single-quoted style with Go escapes for a non-printable rune (quoteWith): the escape text is read back literally"
+        return "C11-single-go-escapes: goccy single-quoted style with Go escapes for a non-printable rune (quoteWith): the escape text is read back literally"
     if kind == "SC":
-        return "cue singleQuoted for a '? ' / '?' string containing a line break"
+        return "C11-cue-single-linebreak: cue singleQuoted for a '? ' / '?' string containing a line break"
     if kind == "P":
-        return "plain style for '...' (document end marker) in column 0"
+        return "C11-dots-root: plain style for '...' (document end marker) in column 0"
     return "unclassified"
 
 
@@ -177,7 +179,7 @@ def run(ctx):
             if rt and not followed:
                 pass
             elif not rt and followed:
-                key = "encoder: empty bytes value is written as '!!binary ' with no content; followed by another node the tag attaches to that node and decoding fails (encodeScalar)"
+                key = "C11-empty-bytes: encoder: empty bytes value is written as '!!binary ' with no content; followed by another node the tag attaches to that node and decoding fails (encodeScalar)"
                 if key not in known:
                     known[key] = {"count": 0, "witness": {"cue": "{a: '', b: 1}", "yaml": "a: !!binary \nb: 1\n"}}
                 known[key]["count"] += 1
@@ -211,7 +213,7 @@ def run(ctx):
                     stats["fixed_known_cases"] += 1
             elif tab and iw["yaml"] == "err":
                 stats["json_known_tab"] += 1
-                key = "JSON text with a tab between an object key and its colon is rejected by the YAML decoder (goccy scanner: 'tab character cannot use as a map key directly')"
+                key = "C11-json-tab-colon: JSON text with a tab between an object key and its colon is rejected by the YAML decoder (goccy scanner: 'tab character cannot use as a map key directly')"
                 if key not in known:
                     known[key] = {"count": 0, "witness": {"json": unhex(c.split()[1]).decode("utf-8", "replace")[:200]}}
                 known[key]["count"] += 1
